@@ -141,6 +141,28 @@ def c2s_records(rng, n):
             add({"t": "str", "w": w, "r": rem, "sgn": k < 0, "neg": neg, "ip": ip, "fp": fp if nd == 3 else -1})
             if abs(k) <= 19200:           # larger mantissas do not fit TLC's integers; the harness compares those itself below
                 add({"t": "fromstr", "text": cps(str(b)), "got": rat(Beat.from_str(str(b)))})
+        elif r < 0.17:
+            # the same VALUE back to back as an exact rational and as a decimal / float / string, in either
+            # order: what one construction leaves behind must not decide the other (rationals stay exact,
+            # inexact input snaps to the tick)
+            if rng.random() < 0.5:
+                places = rng.randint(1, 4)
+                q = Fraction(rng.randint(-300 * 10 ** places, 300 * 10 ** places), 10 ** places)
+                sx = "%s%d.%0*d" % ("-" if q < 0 else "", abs(q.numerator * (10 ** places // q.denominator)) // 10 ** places, places,
+                                    abs(q.numerator * (10 ** places // q.denominator)) % 10 ** places)
+                forms = [("inexact", lambda: Beat(Decimal(sx))), ("inexact", lambda: Beat(sx))]
+                if float(sx) == q:
+                    forms.append(("inexact", lambda: Beat(float(sx))))
+            else:
+                j = rng.randint(1, 10)
+                q = Fraction(rng.randint(-300 * 2 ** j, 300 * 2 ** j), 2 ** j)
+                forms = [("inexact", lambda: Beat(float(q))), ("inexact", lambda: Beat(Decimal(q.numerator) / Decimal(q.denominator)))]
+            forms += [("exact", lambda: Beat(q)), ("exact", lambda: Beat(q.numerator, q.denominator)), ("exact", lambda: Beat(Fraction(q)))]
+            seq = [rng.choice(forms) for _ in range(rng.randint(2, 4))]
+            if len({k for k, _ in seq}) == 1:
+                seq.append(rng.choice([f for f in forms if f[0] != seq[0][0]]))
+            for kind, make in seq:
+                add({"t": kind, "inp": rat(q), "got": rat(make())})
         elif r < 0.22:
             nn, dd = rng.randint(-3000, 3000), rng.randint(1, 1000)
             how = rng.random()
@@ -197,6 +219,9 @@ def c2s_records(rng, n):
                 bp = rng.randint(0, 5)
                 bm = rng.randint(0, 300 * 10 ** bp)
                 bs = "%d.%0*d" % (bm // 10 ** bp, bp, bm % 10 ** bp) if bp else str(bm)
+                if rows and rng.random() < 0.25:              # two rows on one tick: the same beat again, or a hair off it
+                    prev = rows[rng.randrange(len(rows))].strip().split("=")[0]
+                    bs = prev if rng.random() < 0.5 else ("%.3f" % (float(prev) + rng.choice([0.001, 0.002, -0.001]))).lstrip("-")
                 vp = rng.randint(0, 6)
                 vm = rng.randint(-999 * 10 ** vp, 999 * 10 ** vp)
                 vs = ("-" if vm < 0 else "") + ("%d.%0*d" % (abs(vm) // 10 ** vp, vp, abs(vm) % 10 ** vp) if vp else str(abs(vm)))
